@@ -56,6 +56,8 @@ class FnInfo:
                     out.add("E")
                 elif f == "wire_type":
                     out.add("W")
+            if last_field(p) == "ty":
+                out.add("FT")      # the type of an entry of a field list, as written in the table: not resolved through the environment
             return out
 
         self.tags = self._derive_fieldwise(seed)
@@ -499,6 +501,9 @@ def analyse(body, entry_bits, info=None):
             tg = info.tags.get(dl, set())
             if ("E" in tg or "W" in tg):
                 s = site("typetest", bi, "+".join(sorted(x for x in tg if x in ("E", "W"))), term=t)
+                s.states.add(frozenset(bits))
+            elif "FT" in tg:
+                s = site("typetest-raw", bi, "FT", term=t)
                 s.states.add(frozenset(bits))
             for x in ("E", "W"):
                 if x in tg:
